@@ -94,21 +94,21 @@ CHECKS = {
 
 # sentences appended to the level text: history / sequence clauses added while testing against seeded changes
 EXTRA = {
- "C01": " static_history: all operation sequences (every operation alone, all ordered pairs, triples within a group) over get_month / is_leap / is_julian / leap / constructions with every month spelling, each in a freshly forked process, judged by the reference calendar. cycle_pairs: Julian day then the Gregorian day whole 400-year cycles later (6.1 M evaluations).",
+ "C01": " static_history: all operation sequences (every operation alone, all ordered pairs, triples within a group) over get_month / is_leap / is_julian / leap / constructions with every month spelling, each in a freshly forked process, judged by the reference calendar. cycle_pairs: Julian day then the Gregorian day whole 400-year cycles later (6.1 M evaluations). key_collision_pairs: 36 832 ordered month pairs whose memo keys would collide (digits without a separator, shifted month, sign of the year).",
  "C02": " Object histories: every observer/mutator sequence up to depth 3 (4) on ONE Epoch, all 16 views compared with a fresh object after each step. every_day_readback: get_date of all 5.4 million day numbers of the range at two times of day; sums and differences below JD 0.",
  "C03": " Object histories: every observer/mutator sequence up to depth 3 (4) on ONE Angle, all views compared with a fresh object after each step. sexagesimal_fractions; rounding (decimal ties that are not binary ties, 259 350 cases).",
  "C04": " Tolerance histories: the same functions on objects whose tolerance was changed by set_tolerance earlier in the history. Object histories (10 observers / in-place mutators, depth 3-4) against fresh objects. pair_history: two objects related by copying, all histories to depth 3 (4) applied to either.",
  "C05": " Shared-object histories: one obliquity / latitude object re-used over the whole alphabet and updated in place between calls. Body exactly at a pole for the position angle; observer latitudes within 1e-7 deg of the poles; call pairs whose parameter differs by 3e-9..1e-6 deg (both orders).",
  "C06": " Near-epoch histories (a call preceded by a call with epochs 1e-3..1e-2 day away); orbital elements incl. i = 0, 90, 180 judged by rotating the orbit normal and perihelion direction. Milli-arcsecond proper motions; stars carried across a pole; arguments carrying a coarse comparison tolerance. Stars arriving 1e-9..1e-6 deg from the final pole (constructed through the inverse reference).",
- "C07": " Calls one second and one minute apart (continuity and the aberration identity on consecutive calls). Every table term at its own zero crossing (+-1, +-3 ulp): quick 2 266 terms of the short series, thorough all 31 577 terms x 3 eras. fk5_zero_crossings: zero crossings of B, cos l' - sin l', cos l' + sin l' narrowed to adjacent doubles. row_coincidences (equal arguments of consecutive series rows); order_sum_zeros (zero crossings of every order sum narrowed to adjacent doubles).",
+ "C07": " Calls one second and one minute apart (continuity and the aberration identity on consecutive calls). Every table term at its own zero crossing (+-1, +-3 ulp): quick 2 266 terms of the short series, thorough all 31 577 terms x 3 eras. fk5_zero_crossings: zero crossings of B, cos l' - sin l', cos l' + sin l' narrowed to adjacent doubles. row_coincidences (equal arguments of consecutive series rows); order_sum_zeros (zero crossings of every order sum narrowed to adjacent doubles). Horner partial sums; nutation_zeros.",
  "C08": " Every date form with and without utc / leap_seconds keywords. The library's own equinox / solstice instants +-{0..600} min (14 years x 4 seasons); coarse RA/dec per coordinate; dense coarse lattice at the ends of 1800-2200. sun_latitude_zeros; call_pairs (all ordered pairs of 19 years x 4 functions x 3 date forms in forked processes). special_instants (R = 1 AU, longitude 90 deg from the node of the ecliptics) with an apparent-minus-geometric oracle.",
  "C09": " Close approaches down to 0.002 AU; histories of ONE Minor and ONE Epoch re-used through set() (all sequences to depth 3 / 4 over 9 operations, two-body oracle after each step); one Epoch re-set between (date, body) planet queries. Own Sun vector from the Earth's J2000 position; perihelion dates -1990..3990; bystander objects; sequences 2 s apart at 0.002 AU; planets at their conjunctions / oppositions; thorough: 5.75 M positions in the 0.90-0.98 eccentricity band. minor_polar_directions; minor_convergence_edge (edge of the near-parabolic series located by bisection, instants within 3 light times of it).",
  "C10": " Thorough: independent TLA+ model (models/LeapSeconds.tla) enumerated by TLC, all 1 812 dumped states replayed. API histories: all sequences (depth 3 / 4) over 10 operations of the leap-second API, the visible history (58 values) compared with the IERS list after each step; overrides with and without utc=True. Nine argument forms x {utc, override} per state. Overrides at civil midnight and noon with get_date read-back; bare-JDE, set(jde) and Epoch-object forms under the override.",
  "C11": " Call sequences: each (e, M) preceded by a call 6e-8..1e-4 degree away. Dense (e, M) grids: 1.68 M pairs incl. e = 0.90..0.9995 step 0.0005 x 0.01 deg; aligned triples; node eccentricities 1e-8..1e-3. kepler_latus_rectum: 2.4 M (thorough 12 M) eccentricities on the curve v = +-90 degrees.",
- "C12": " Histories incl. the caller overwriting the lists it lent to the object (depth 3). Close root pairs; spacings 0.001..36 525; minmax in the copy histories. root_tolerance (tightened object tolerance, limit a hair beyond the root); roots of multiplicity 3 and 5.",
+ "C12": " Histories incl. the caller overwriting the lists it lent to the object (depth 3). Close root pairs; spacings 0.001..36 525; minmax in the copy histories. root_tolerance (tightened object tolerance, limit a hair beyond the root); roots of multiplicity 3 and 5. 17 measured-looking tables searched between all pairs of tabulated and non-tabulated limits.",
  "C13": " Isolated spot queries over the whole range (240 / 1 200 per variant); one Epoch moved by set() through all ordered pairs (triples) of 7 dates per variant. every_event: 394 916 queries one period apart - every event of all 56 variants over the whole range. calendar_seams: every variant asked 1e-6 d before and after 0 h of every 1 January, 1 March of leap years and the 1st of every month of every 12th year (thorough every year): never backwards. switch_seams: whole minutes and hours around the bisected instant at which a finder switches to the next event.",
  "C14": " Rise/set decision on a 0.25 (0.05) degree declination grid through both 'never crosses' thresholds x 10 latitudes x 6 standard altitudes. Whole-minute seams of the equation of time located by bisection (+-1e-9..1e-4 d); transit / rise / set within seconds of 0 h = 24 h; returned Epochs moved by the caller. Bodies transiting at 0 h / 24 h of the day (both hour-angle wrap branches). rts_accelerated (changing daily motion); rts_dense_seam (0.17 s grid around 0 h UT, 72 018 cases).",
- "C15": " Every year end -2000..3998 x 10 finder/target pairs x 10 query offsets from 1.5 d down to 1e-6 d around 1 January 0h; one Epoch moved by set() between queries. every_event: 777 472 queries one period apart - every lunar event of the range. month_seams: every finder 1e-6 d before and after 0 h of the 1st of every month of every year. argument_events: zeros and coincidences of the large terms' arguments, continuity of 14 views across adjacent doubles.",
+ "C15": " Every year end -2000..3998 x 10 finder/target pairs x 10 query offsets from 1.5 d down to 1e-6 d around 1 January 0h; one Epoch moved by set() between queries. every_event: 777 472 queries one period apart - every lunar event of the range. month_seams: every finder 1e-6 d before and after 0 h of the 1st of every month of every year. argument_events: zeros and coincidences of the large terms' arguments, continuity of 14 views across adjacent doubles. mean_distance_crossings; node finder asked while the Moon is on the ecliptic.",
  "C16": " First instant and 1e-8 day before the end of every civil day through Epoch(jde).dow(); Epoch object histories (shared with C02). Last representable instant of every civil day; the sidereal wrap of every day of the seam years narrowed to adjacent doubles. Within-day sidereal advance judged to 2e-11 day.",
  "C19": " Thorough: independent TLA+ model of the tabular Islamic calendar (models/Hijri.tla, 30-year cycle table) enumerated by TLC over six 40-year windows, all 85 049 dumped states replayed; Gauss's Easter algorithm as a third formulation (models/Easter.tla), all 14 713 years enumerated by TLC and replayed; the traditional molad / dehiyyot rules (models/Pesach.tla), all 3 000 years enumerated and replayed. cycle_day_pairs: conversions of days whole 30-year / 400-year / 4-year cycles apart, both converters, both orders.",
  "C17": " Input forms incl. re-used objects, a copy whose source is re-loaded, and lists overwritten by the caller, for linear, quadratic and general fits. Scale-disparate bases (exp x, x, 1 on 0..20), +-a degenerate tables, ordinates without spread, skewed abscissae; general fits on degenerate data. Contribution-based floor for small coefficients; coefficients 12 decades apart; 150-200 equal abscissae.",
